@@ -381,6 +381,8 @@ def run_history(spec):
                       perform_auto_task_while_absence_time=o["autoAbs"], max_time=o["maxTime"],
                       considering_due_time_of_tail_tasks=bool(op.get("due")),
                       reverse_log_information=bool(op.get("reverse", True)))
+            rec["args"]["due"] = bool(op.get("due"))
+            rec["args"]["reverse"] = bool(op.get("reverse", True))
             s0, i0 = _struct(m)
             ab = tuple(op["abortAt"]) if op.get("abortAt") else None
             ev, ret = call_recorded(m, lambda: m.project.backward_simulate(**kw), abort_at=ab, light=light)
